@@ -378,6 +378,8 @@ pub struct World {
     pub last_aad: Vec<u8>,
     pub cur_commit: Option<(usize, Vec<u8>)>,
     pub rejoined_same_storage: BTreeSet<usize>,
+    /// group context extensions that every GroupContextExtensions proposal of the driver keeps
+    pub keep_exts: Vec<Extension>,
 }
 
 pub struct CommitResult {
@@ -406,6 +408,7 @@ impl World {
             last_aad: vec![],
             cur_commit: None,
             rejoined_same_storage: BTreeSet::new(),
+            keep_exts: vec![],
         }
     }
 
@@ -564,8 +567,16 @@ impl World {
         id
     }
 
-    pub fn random_gce(&mut self) -> ExtensionList {
+    pub fn base_gce(&self) -> ExtensionList {
         let mut l = ExtensionList::new();
+        for e in &self.keep_exts {
+            l.set(e.clone());
+        }
+        l
+    }
+
+    pub fn random_gce(&mut self) -> ExtensionList {
+        let mut l = self.base_gce();
         if self.rng.chance(2, 3) {
             l.set(Extension::new(ExtensionType::new(EXT_A), self.rng.bytes(5)));
         }
